@@ -867,4 +867,8 @@ theorem build_sound (hasDefault : Bool) (cs : List ChainCfg) (t : Table) (h : bu
       · simp at h1
       · exact ⟨c, by rw [hc]; simpa using hk, hf⟩
 
+theorem ite_some_iff (p : Prop) [Decidable p] (v : Int) :
+    ((if p then some v else none) = some v ↔ p) ∧ ((if p then some v else none) = none ↔ ¬ p) := by
+  by_cases h : p <;> simp [h]
+
 end GrpcProofs.Lemmas.FilterChain
